@@ -32,7 +32,7 @@ ASSUMPTIONS = [
     "canonical state = configuration + harness bookkeeping + wire bytes + the channel's buffering/flow-control "
     "attributes (read defensively, used only to merge states, never for the verdict)",
 ]
-MIN = {"quick": {"states": 20000, "transitions": 60000, "nontrivial": 5000, "outcomes": 6}}
+MIN = {"quick": {"states": 70000, "transitions": 100000, "nontrivial": 65000, "outcomes": 5}}
 
 KINDS = {
     # kind -> (method, request bytes for path /i, expected body)
@@ -56,12 +56,13 @@ def configs(tier):
     for a in mid:
         for b in last:
             seqs.append(a + b)
-    three_mid = "GP" if tier == "quick" else "GPC"
-    three_last = "GCX" if tier == "quick" else "GPCXO"
-    for a in three_mid:
-        for b in three_mid:
-            for c in three_last:
-                seqs.append(a + b + c)
+    if tier == "quick":
+        seqs += ["GGG", "GPG", "PGX", "GPC", "PPG", "CGX"]
+    else:
+        for a in mid:
+            for b in mid:
+                for c in last:
+                    seqs.append(a + b + c)
     for kinds in seqs:
         n = len(kinds)
         for mask in range(1 << n):
@@ -69,10 +70,12 @@ def configs(tier):
             for seg in SEGS:
                 if n == 1 and seg == "per-request":
                     continue
+                if tier == "quick" and n == 3 and seg in ("per-request", "near-end"):
+                    continue
                 for eager in (None, 8):
-                    if eager == 8 and (seg == "whole" and n == 1):
+                    if eager == 8 and seg == "whole" and n == 1:
                         continue
-                    if tier == "quick" and n == 3 and eager == 8 and seg in ("whole", "near-end"):
+                    if tier == "quick" and eager == 8 and seg in ("whole", "near-end"):
                         continue
                     out.append((kinds, now, seg, eager))
     return out
@@ -289,7 +292,7 @@ def invariant(st, hist):
     if len(inflight) > 1:
         out.append(("request-handed-while-previous-unfinished", "in progress: %r" % [r.order for r in inflight]))
     if out:
-        return out
+        return [("HTTPChannel:" + s, d) for s, d in out]
     # ---- a complete, deliverable request is not lost
     if not st.lost and not st.t.disconnecting and not st.paused and not inflight:
         complete = sum(1 for e in st.ends if e <= st.delivered)
